@@ -25,7 +25,8 @@ def run_harnesses(prop, names, tier):
         shutil.rmtree(crate, ignore_errors=True)
         shutil.copytree(os.path.join(ROOT, "kani"), crate, ignore=shutil.ignore_patterns("target"))
         ct = os.path.join(crate, "Cargo.toml")
-        open(ct, "w").write(open(ct).read().replace('path = "/repo"', 'path = "%s"' % gen.REPO))
+        txt = open(ct).read().replace('path = "/repo"', 'path = "%s"' % gen.REPO)
+        open(ct, "w").write(txt)
     for h in names:
         meta = HARNESSES[h]
         cmd = ["cargo", "kani", "--harness", h]
